@@ -69,14 +69,97 @@ Theorem c09_safe_predicate : forall v, vault_unsafe v = true ->
 Proof. exact vault_unsafe_spec. Qed.
 Print Assumptions c09_safe_predicate.
 
-(* safety, borrows: a seized borrow has debt/collateral strictly above the threshold applicable to
-   it (plain, or the product with the first / second transit asset's threshold) *)
+(* safety, borrows.  The threshold APPLICABLE to a borrow, as LiquidateIndividualBorrow computes it
+   (liquidationsV2 liquidate.go:295-349), is Model.Liquidation.applicable_threshold:
+     base   = ELiquidationThreshold of the collateral asset for an e-mode pair, else its LiquidationThreshold
+     same pool        (BridgedAssetAmount = 0)                               base
+     first transit    (bridged denom = denom of the pool's first transit asset)   base.Mul(LiquidationThreshold(first))
+     second transit   (otherwise)                                             base.Mul(LiquidationThreshold(second))
+   with sdk.Dec.Mul (round half even at 18 places); the ratio is lend_cr = value(AmountOut +
+   trunc(InterestAccumulated)) / value(AmountIn) in sdk.Dec (Quo), compared with GT. *)
+Theorem c09_applicable_threshold : forall b,
+  (b_bridged_amt b = 0 -> applicable_threshold b = Ok (base_threshold b)) /\
+  (b_bridged_amt b <> 0 -> b_bridged_denom b = b_first_denom b ->
+     applicable_threshold b = oz (dmul_c (base_threshold b) (b_thr_one b))) /\
+  (b_bridged_amt b <> 0 -> b_bridged_denom b <> b_first_denom b ->
+     applicable_threshold b = oz (dmul_c (base_threshold b) (b_thr_two b))) /\
+  (b_emode b = true -> base_threshold b = b_eliq_thr b) /\
+  (b_emode b = false -> base_threshold b = b_liq_thr b).
+Proof. exact applicable_threshold_cases. Qed.
+Print Assumptions c09_applicable_threshold.
+
+(* a borrow seized by a sweep (either generation) has debt/collateral strictly above the threshold
+   applicable to it, whatever the population, the offset, the batch size and the other borrows *)
 Theorem c09_safe_borrow : forall g bs cap off batch r id,
   sweep_one g 0 (map (pos_of_borrow g) bs) cap (zlen bs) off batch = Ok r -> g <> GV1 ->
   In id (r_seized r) ->
-  exists b cr th, In b bs /\ b_id b = id /\ lend_cr b = Ok cr /\ borrow_threshold b = Ok th /\ cr > th.
+  exists b cr th, In b bs /\ b_id b = id /\ lend_cr b = Ok cr /\ applicable_threshold b = Ok th /\ cr > th.
 Proof. exact safe_borrow_sweep. Qed.
 Print Assumptions c09_safe_borrow.
+
+(* anyone's liquidate message (MsgLiquidateInternalKeeper, liq type 1): the same rule *)
+Theorem c09_safe_borrow_msg : forall bs id0 ids l' id,
+  msg_liquidate GB2 (map (pos_of_borrow GB2) bs) id0 = Ok (ids, l') -> In id ids ->
+  exists b cr th, In b bs /\ b_id b = id /\ lend_cr b = Ok cr /\ applicable_threshold b = Ok th /\ cr > th.
+Proof. exact safe_borrow_msg. Qed.
+Print Assumptions c09_safe_borrow_msg.
+
+(* the property's wording: a borrow whose ratio is AT OR BELOW the applicable threshold is never
+   seized, neither by the per-block sweep ... *)
+Theorem c09_safe_borrow_never : forall g bs cap off batch r b cr th,
+  g <> GV1 -> NoDup (map b_id bs) -> In b bs ->
+  lend_cr b = Ok cr -> applicable_threshold b = Ok th -> cr <= th ->
+  sweep_one g 0 (map (pos_of_borrow g) bs) cap (zlen bs) off batch = Ok r ->
+  ~ In (b_id b) (r_seized r).
+Proof. exact safe_borrow_never. Qed.
+Print Assumptions c09_safe_borrow_never.
+
+(* ... nor by anyone's liquidate message *)
+Theorem c09_safe_borrow_never_msg : forall bs id0 ids l' b cr th,
+  NoDup (map b_id bs) -> In b bs ->
+  lend_cr b = Ok cr -> applicable_threshold b = Ok th -> cr <= th ->
+  msg_liquidate GB2 (map (pos_of_borrow GB2) bs) id0 = Ok (ids, l') ->
+  ~ In (b_id b) ids.
+Proof. exact safe_borrow_never_msg. Qed.
+Print Assumptions c09_safe_borrow_never_msg.
+
+(* the boolean the runner evaluates on the implementation's borrow seizures is this statement *)
+Theorem c09_safe_borrow_predicate : forall b, borrow_unsafe b = true ->
+  exists cr th, lend_cr b = Ok cr /\ applicable_threshold b = Ok th /\ cr > th.
+Proof. exact borrow_unsafe_spec. Qed.
+Print Assumptions c09_safe_borrow_predicate.
+
+(* the one-pass evaluation the runner extracts (ratio computed once) is exactly the rule, the ratio,
+   the applicable threshold and the safety predicate *)
+Theorem c09_borrow_eval : forall g b,
+  e_v (borrow_eval g b) = seize_rule_borrow g b /\ e_cr (borrow_eval g b) = lend_cr b /\
+  e_th (borrow_eval g b) = applicable_threshold b /\ e_unsafe (borrow_eval g b) = borrow_unsafe b.
+Proof. exact borrow_eval_spec. Qed.
+Print Assumptions c09_borrow_eval.
+
+(* non-vacuity: collateral 100 (price 1.6, 10^6 decimals), debt 40 (price 2.0): ratio 0.5.
+   Collateral threshold 0.55 (e-mode 0.95), first transit 0.85, second transit 0.75:
+     same pool 0.55 -> kept; first transit 0.4675 -> seized; second transit 0.4125 -> seized;
+     e-mode first transit 0.8075 -> kept; exactly at the threshold (0.5 vs 0.5) -> kept, one
+     unit in the last place above -> seized; the pool short of the collateral -> error *)
+Definition c09_ex_borrow (bridged denom : Z) (emode : bool) (thr : Z) (pool_bal : Z) : borrow_in :=
+  mkBorrowIn 7 true false true false true false 100000000 40000000 0 (Some 1600000) 1000000 (Some 2000000) 1000000
+             thr 950000000000000000 emode bridged denom 3 850000000000000000 750000000000000000
+             true true false pool_bal 100000000 false.
+Example c09_safe_borrow_nonvacuous :
+  lend_cr (c09_ex_borrow 0 0 false 550000000000000000 100000000) = Ok 500000000000000000 /\
+  map (fun b => (applicable_threshold b, seize_rule_borrow GB2 b))
+      [c09_ex_borrow 0 0 false 550000000000000000 100000000;
+       c09_ex_borrow 5 3 false 550000000000000000 100000000;
+       c09_ex_borrow 5 1 false 550000000000000000 100000000;
+       c09_ex_borrow 5 3 true 550000000000000000 100000000;
+       c09_ex_borrow 0 0 false 500000000000000000 100000000;
+       c09_ex_borrow 0 0 false 499999999999999999 100000000;
+       c09_ex_borrow 5 3 false 550000000000000000 99999999] =
+    [(Ok 550000000000000000, VKeep); (Ok 467500000000000000, VSeize); (Ok 412500000000000000, VSeize);
+     (Ok 807500000000000000, VKeep); (Ok 500000000000000000, VKeep); (Ok 499999999999999999, VSeize);
+     (Ok 467500000000000000, VErr)].
+Proof. vm_compute. split; reflexivity. Qed.
 
 (* exact handover, as far as the seizure effects are modelled: any sequence of seizures moves
    exactly the recorded collateral from vault custody to auction custody and opens exactly one
@@ -85,6 +168,99 @@ Theorem c09_exact_handover : forall amts c,
   holds_C09_handover c (fold_left seize_effect amts c) amts = true.
 Proof. exact handover_fold. Qed.
 Print Assumptions c09_exact_handover.
+
+(* exact hand-over of a BORROW seizure (UpdateLockedBorrows), for every world and every borrow:
+   exactly the recorded collateral AmountIn leaves the module account of the lend position's pool
+   for the auctionsV2 module account, the same amount of its cToken is burnt there, no other balance
+   moves; TotalLend of (pool, asset) of the lend position and TotalBorrowed / TotalStableBorrowed of
+   (AssetOutPoolID, AssetOut) shrink by exactly AmountIn resp. AmountOut, no other statistic
+   moves; no other lend position changes; IsLiquidated is set; exactly one locked vault and one
+   auction are opened, for exactly the recorded collateral *)
+Theorem c09_exact_handover_borrow : forall w z,
+  z_pool_acc z <> auction_acc -> z_denom_in z <> z_cdenom z ->
+  let w' := seize_borrow_world w z in
+  kget (w_bal w') (z_pool_acc z, z_denom_in z) = kget (w_bal w) (z_pool_acc z, z_denom_in z) - z_amt_in z /\
+  kget (w_bal w') (auction_acc, z_denom_in z) = kget (w_bal w) (auction_acc, z_denom_in z) + z_amt_in z /\
+  kget (w_bal w') (z_pool_acc z, z_cdenom z) = kget (w_bal w) (z_pool_acc z, z_cdenom z) - z_amt_in z /\
+  (forall k, k <> (z_pool_acc z, z_denom_in z) -> k <> (auction_acc, z_denom_in z) -> k <> (z_pool_acc z, z_cdenom z) ->
+     kget (w_bal w') k = kget (w_bal w) k) /\
+  kget (w_supply w') (0, z_cdenom z) = kget (w_supply w) (0, z_cdenom z) - z_amt_in z /\
+  (forall k, k <> (0, z_cdenom z) -> kget (w_supply w') k = kget (w_supply w) k) /\
+  kget (w_tlend w') (z_pool_in z, z_asset_in z) = kget (w_tlend w) (z_pool_in z, z_asset_in z) - z_amt_in z /\
+  (forall k, k <> (z_pool_in z, z_asset_in z) -> kget (w_tlend w') k = kget (w_tlend w) k) /\
+  kget (w_tborrow w') (z_pool_out z, z_asset_out z) + kget (w_tstable w') (z_pool_out z, z_asset_out z) =
+    kget (w_tborrow w) (z_pool_out z, z_asset_out z) + kget (w_tstable w) (z_pool_out z, z_asset_out z) - z_amt_out z /\
+  (forall k, k <> (z_pool_out z, z_asset_out z) ->
+     kget (w_tborrow w') k = kget (w_tborrow w) k /\ kget (w_tstable w') k = kget (w_tstable w) k) /\
+  (forall id, id <> z_lend z -> lend_get (w_lend w') id = lend_get (w_lend w) id) /\
+  w_liq w' = w_liq w ++ [z_id z] /\
+  w_locked w' = w_locked w ++ [(z_id z, z_amt_in z)] /\
+  w_auction w' = w_auction w ++ [(z_id z, z_amt_in z)].
+Proof. exact handover_borrow_one. Qed.
+Print Assumptions c09_exact_handover_borrow.
+
+(* the lend position of the seized borrow keeps exactly AmountIn - collateral, or is deleted when
+   nothing positive is left *)
+Theorem c09_exact_handover_borrow_lend : forall w z v, NoDup (map fst (w_lend w)) ->
+  lend_get (w_lend w) (z_lend z) = Some v ->
+  lend_get (w_lend (seize_borrow_world w z)) (z_lend z) = if v - z_amt_in z >? 0 then Some (v - z_amt_in z) else None.
+Proof. intros w z v Hnd H. exact (lend_get_sub_spec (w_lend w) (z_lend z) (z_amt_in z) v Hnd H). Qed.
+Print Assumptions c09_exact_handover_borrow_lend.
+
+(* any sequence of borrow seizures (one block of the sweep, or a message): exactly one locked vault
+   and one auction per seized borrow, in order, each for exactly the recorded collateral ... *)
+Theorem c09_exact_handover_borrow_records : forall zs w,
+  w_locked (fold_left seize_borrow_world zs w) = w_locked w ++ map (fun z => (z_id z, z_amt_in z)) zs /\
+  w_auction (fold_left seize_borrow_world zs w) = w_auction w ++ map (fun z => (z_id z, z_amt_in z)) zs /\
+  w_liq (fold_left seize_borrow_world zs w) = w_liq w ++ seized_ids zs.
+Proof. exact handover_borrow_records. Qed.
+Print Assumptions c09_exact_handover_borrow_records.
+
+(* ... and auction custody of every denomination grows by exactly the recorded collateral of the
+   seized borrows with that collateral *)
+Theorem c09_exact_handover_borrow_custody : forall zs w d,
+  Forall (fun z => z_pool_acc z <> auction_acc /\ z_denom_in z <> z_cdenom z) zs ->
+  kget (w_bal (fold_left seize_borrow_world zs w)) (auction_acc, d) =
+  kget (w_bal w) (auction_acc, d) + zsum (map (coll_in d) zs).
+Proof. exact handover_borrow_custody. Qed.
+Print Assumptions c09_exact_handover_borrow_custody.
+
+(* the predicate the runner evaluates on the IMPLEMENTATION's worlds before / after a step holds
+   exactly when the world after the step is the world before it with this book-keeping applied
+   for the borrows the implementation seized - and nothing else changed *)
+Theorem c09_handover_borrow_predicate : forall zs w w',
+  holds_C09_handover_borrow w w' zs = true <-> w' = fold_left seize_borrow_world zs w.
+Proof.
+  intros zs w w'. split; [apply handover_borrow_spec|intros ->; apply handover_borrow_holds].
+Qed.
+Print Assumptions c09_handover_borrow_predicate.
+
+(* anyone's EXTERNAL liquidate message: exactly the offered collateral enters auction custody, exactly
+   one locked vault and one auction are opened for it, no borrow, lend position or statistic changes *)
+Theorem c09_exact_handover_external : forall w denom amt,
+  let w' := ext_world w denom amt in
+  kget (w_bal w') (auction_acc, denom) = kget (w_bal w) (auction_acc, denom) + amt /\
+  (forall k, k <> (auction_acc, denom) -> kget (w_bal w') k = kget (w_bal w) k) /\
+  w_locked w' = w_locked w ++ [(0, amt)] /\ w_auction w' = w_auction w ++ [(0, amt)] /\
+  w_liq w' = w_liq w /\ w_lend w' = w_lend w /\ w_tlend w' = w_tlend w /\ w_tborrow w' = w_tborrow w /\
+  w_tstable w' = w_tstable w /\ w_supply w' = w_supply w.
+Proof. exact handover_external_one. Qed.
+Print Assumptions c09_exact_handover_external.
+
+(* non-vacuity: two seizures (one variable-rate same-pool, one stable cross-pool) on a world with
+   balances, statistics and lend positions; the second lend position is used up and deleted *)
+Example c09_handover_borrow_nonvacuous :
+  let w := mkLW [((0, 1), 5); ((101, 1), 1000); ((101, 5), 900); ((102, 4), 700)] [((0, 5), 900)]
+                [((1, 1), 800)] [((1, 2), 300); ((2, 4), 50)] [((2, 4), 140)] [(1, 600); (2, 400)] [] [] [] in
+  let z1 := mkBS 11 100 70 false 101 1 5 1 1 1 2 1 in
+  let z2 := mkBS 12 400 140 true 101 1 5 1 1 2 4 2 in
+  fold_left seize_borrow_world [z1; z2] w =
+    mkLW [((0, 1), 505); ((101, 1), 500); ((101, 5), 400); ((102, 4), 700)] [((0, 5), 400)]
+         [((1, 1), 300)] [((1, 2), 230); ((2, 4), 50)] [((2, 4), 0)] [(1, 500)] [11; 12]
+         [(11, 100); (12, 400)] [(11, 100); (12, 400)] /\
+  holds_C09_handover_borrow w (fold_left seize_borrow_world [z1; z2] w) [z1; z2] = true /\
+  holds_C09_handover_borrow w (fold_left seize_borrow_world [z1] w) [z1; z2] = false.
+Proof. vm_compute. repeat split. Qed.
 
 (* ---------------------------------------------------------------------------------------- *)
 (* liveness.  The schedule ([event]): EBlock u = one block of the sweep in which the positions
@@ -210,6 +386,61 @@ Theorem c09_v2_hook_borrow_block : forall capf vl counter off0 b r1 ids liq off1
 Proof. exact v2_hook_borrow_block. Qed.
 Print Assumptions c09_v2_hook_borrow_block.
 
+(* the hypothesis "vf x = VSeize" of the borrow liveness theorems below, in the property's terms:
+   OUTSIDE the known-finding classes C09-F5 / C09-F6 the visit of a borrow seizes it as soon as the property's
+   hypotheses hold (the borrow is open, kill switch off, liquidation whitelisted for the app with
+   an auction type activated, prices active = ratio computable) and it is above its threshold *)
+Theorem c09_live_borrow_verdict : forall b,
+  live_hyp_borrow b = true -> borrow_unsafe b = true -> kf_C09_5 b = false -> kf_C09_6 b = false ->
+  seize_rule_borrow GB2 b = VSeize.
+Proof. exact live_borrow_verdict. Qed.
+Print Assumptions c09_live_borrow_verdict.
+
+(* ---- refuted inside the class (finding C09-F5): every hypothesis of the property holds and the
+   borrow is above its threshold, but the collateral's pool holds one unit less of the collateral asset
+   than the borrow recorded (lent out to other borrowers): the visit fails, and NO sweep ever seizes
+   the borrow - whatever the list, the offset, the batch size - while the pool stays short ---- *)
+Theorem c09_live_borrow_pool_short_refuted :
+  let b := c09_ex_borrow 5 3 false 550000000000000000 99999999 in
+  live_hyp_borrow b = true /\ borrow_unsafe b = true /\ kf_C09_5 b = true /\
+  seize_rule_borrow GB2 b = VErr /\
+  (forall bs cap off batch r, NoDup (map b_id bs) -> In b bs ->
+     sweep_one GB2 0 (map (pos_of_borrow GB2) bs) cap (zlen bs) off batch = Ok r -> ~ In (b_id b) (r_seized r)).
+Proof.
+  cbn zeta.
+  split; [vm_compute; reflexivity|]. split; [vm_compute; reflexivity|].
+  split; [vm_compute; reflexivity|]. split; [vm_compute; reflexivity|].
+  intros bs cap off batch r Hnd Hb H.
+  apply (not_seize_never GB2 bs cap off batch r _ ltac:(discriminate) Hnd Hb); [|exact H].
+  vm_compute. discriminate.
+Qed.
+Print Assumptions c09_live_borrow_pool_short_refuted.
+
+(* ---- refuted inside the class C09-F6: every hypothesis of the property holds and the borrow is
+   above its threshold, but its interest update panics (ReserveGlobalIndex 0): the visit panics (the
+   sweep's wrapper rolls it back), NO sweep ever seizes the borrow and the liquidate message panics ---- *)
+Definition c09_ex_borrow_f6 : borrow_in :=
+  mkBorrowIn 7 true false true false false true 100000000 40000000 0 (Some 1600000) 1000000 (Some 2000000) 1000000
+             550000000000000000 950000000000000000 false 5 3 3 850000000000000000 750000000000000000
+             true true false 100000000 100000000 false.
+Theorem c09_live_borrow_interest_refuted :
+  let b := c09_ex_borrow_f6 in
+  live_hyp_borrow b = true /\ borrow_unsafe b = true /\ kf_C09_6 b = true /\
+  seize_rule_borrow GB2 b = VPanic /\
+  msg_liquidate GB2 [pos_of_borrow GB2 b] (b_id b) = Panic /\
+  (forall bs cap off batch r, NoDup (map b_id bs) -> In b bs ->
+     sweep_one GB2 0 (map (pos_of_borrow GB2) bs) cap (zlen bs) off batch = Ok r -> ~ In (b_id b) (r_seized r)).
+Proof.
+  cbn zeta.
+  split; [vm_compute; reflexivity|]. split; [vm_compute; reflexivity|].
+  split; [vm_compute; reflexivity|]. split; [vm_compute; reflexivity|].
+  split; [vm_compute; reflexivity|].
+  intros bs cap off batch r Hnd Hb H.
+  apply (not_seize_never GB2 bs cap off batch r _ ltac:(discriminate) Hnd Hb); [|exact H].
+  vm_compute. discriminate.
+Qed.
+Print Assumptions c09_live_borrow_interest_refuted.
+
 (* quiet chain: a borrow that is above its threshold (verdict VSeize: liquidation enabled, prices
    active, controls off) in every block is liquidated within (n-1)/batch + 2 blocks, whatever the
    other borrows do in those blocks (erroring and panicking borrows in front of it included) ... *)
@@ -230,12 +461,15 @@ Theorem c09_live_borrow_two_sweeps : forall b x ids off liq vfs,
 Proof. exact blive_quiet_two_sweeps. Qed.
 Print Assumptions c09_live_borrow_two_sweeps.
 
-(* interleaved with repayments / deletions of other borrows and with new borrows: the bound of
-   the vault theorem, live_bound (n + c) c b *)
+(* interleaved with repayments / deletions of other borrows and with new borrows.  A new borrow is
+   NOT appended to the swept list: lend.GetBorrows concatenates the BorrowIds of the pool-asset
+   statistics in store order, the new id joins the group of its (AssetOutPoolID, AssetOut), i.e. it
+   is inserted at ANY position k (BCreate k id).  An insertion in front of x can cost one block
+   more than an appended position: the bound is blive_bound (n + c) c b = live_bound (n + c) c b + c *)
 Theorem c09_live_borrow_interleaved : forall b x ids off liq evs c,
   1 <= b -> 0 <= off -> NoDup ids -> In x ids ->
   brun_ok b x (mkB ids off liq) evs -> n_bcreates evs <= c ->
-  live_bound (zlen ids + c) c b <= n_bblocks evs ->
+  blive_bound (zlen ids + c) c b <= n_bblocks evs ->
   In x (bs_liq (fold_left (bev_step b) evs (mkB ids off liq))).
 Proof. exact blive_interleaved. Qed.
 Print Assumptions c09_live_borrow_interleaved.
@@ -244,15 +478,37 @@ Print Assumptions c09_live_borrow_interleaved.
    errors, borrow 1 panics and borrow 2 is safe; a repayment and a new borrow in between *)
 Example c09_live_borrow_nonvacuous :
   let vf := fun id => if id =? 0 then VErr else if id =? 1 then VPanic else if id =? 3 then VSeize else VKeep in
-  let evs := [BBlock vf; BCreate 9; BClose 2; BBlock vf] ++ bblocks_of (repeat vf 24) in
+  let evs := [BBlock vf; BCreate 1 9; BClose 2; BBlock vf] ++ bblocks_of (repeat vf 26) in
   brun_ok 2 3 (mkB [0;1;2;3;4] 4 []) evs /\ n_bcreates evs <= 1 /\
-  live_bound (zlen [0;1;2;3;4] + 1) 1 2 <= n_bblocks evs /\
+  blive_bound (zlen [0;1;2;3;4] + 1) 1 2 <= n_bblocks evs /\
+  bs_ids (fold_left (bev_step 2) [BBlock vf; BCreate 1 9; BClose 2] (mkB [0;1;2;3;4] 4 [])) = [0;9;1;3;4] /\
   bs_liq (fold_left (bev_step 2) evs (mkB [0;1;2;3;4] 4 [])) = [3] /\
   (* quiet: seized in the 3rd block = live_R 5 2 - 1 <= two_sweeps 5 2 = 6 *)
   bs_liq (fold_left (bev_step 2) (bblocks_of (repeat vf 2)) (mkB [0;1;2;3;4] 4 [])) = [] /\
   bs_liq (fold_left (bev_step 2) (bblocks_of (repeat vf 3)) (mkB [0;1;2;3;4] 4 [])) = [3] /\
   live_R 5 2 = 4 /\ two_sweeps 5 2 = 6.
 Proof. vm_compute. repeat split; intros; try discriminate; try (intuition discriminate). Qed.
+
+(* the batch size.  Every batch size the parameter validation admits (since fix C09-F4: 1 <= b < 2^63)
+   meets the hypothesis 1 <= b of the liveness theorems, and the sweeps' int(...) conversion of it is the
+   identity ... *)
+Theorem c09_valid_batch : forall b, valid_batch b = true -> 1 <= b /\ int_of_u64 b = b /\ u64 b = b.
+Proof. exact valid_batch_spec. Qed.
+Print Assumptions c09_valid_batch.
+
+(* ... while a stored size of 2^63 .. 2^64-1 (accepted before the fix: "v <= 0" is the only test on a
+   uint64) converts to a negative int: the window is empty in EVERY block, for every list and offset -
+   no position is ever swept (regression witness: harness TestC09Borrow directed cases gov-batch) *)
+Theorem c09_invalid_batch_sweeps_nothing : forall b len off, two63 <= b < two64 -> 0 <= len ->
+  sweep_window len off (int_of_u64 b) = (len, len).
+Proof. exact invalid_batch_sweeps_nothing. Qed.
+Print Assumptions c09_invalid_batch_sweeps_nothing.
+
+Example c09_batch_nonvacuous :
+  valid_batch 1 = true /\ valid_batch 9223372036854775807 = true /\ valid_batch 0 = false /\
+  valid_batch 9223372036854775808 = false /\ valid_batch 18446744073709551615 = false /\
+  sweep_window 5 2 (int_of_u64 9223372036854775808) = (5, 5) /\ sweep_window 5 2 9223372036854775807 = (2, 5).
+Proof. vm_compute. repeat split. Qed.
 
 (* ---- regressions: the witnesses of the repaired findings now pass ---- *)
 (* C09-F2 (was c09_live_v2_refuted: "forall k, run_v2 k v2_starved = v2_starved"): 2 vaults,
